@@ -32,6 +32,66 @@ def canon(events):
     return out
 
 
+def _empty(e):
+    return isinstance(e, tuple) and e and e[0] == "init" and not e[2]
+
+
+def _defaulted(e, name):
+    """`name or []`, `[] if name is None else name`, `name if name is not None else []`: the argument itself, an absent one read as empty"""
+    from .. import estflow
+    ref = ("ref", name)
+    if not isinstance(e, tuple):
+        return False
+    if e[0] == "bin" and e[1] == "||" and e[2] == ref and _empty(e[3]):
+        return True
+    if e[0] == "cond":
+        lits = estflow.literals([(e[1], True)])
+        if lits is not None and len(lits) == 1:
+            (l,) = lits
+            if estflow.is_none_test(l, ref) and _empty(e[2]) and e[3] == ref:
+                return True
+            c, pol = l
+            if not pol and estflow.is_none_test((c, True), ref) and e[2] == ref and _empty(e[3]):
+                return True
+    return False
+
+
+def strip_default_idiom(ctx, body, name, where, file, func):
+    """drop the default-argument idiom for `name` (absent -> empty list) from the tick body; any other rebinding of the parameter is reported"""
+    from .. import estflow
+    out = []
+
+    def rebinding(s):
+        return s[0] == "decl" and s[1] == name
+    for s in body:
+        if s[0] == "if" and s[4] is None:
+            lits = estflow.literals([(s[1], True)])
+            then_default = len(s[2]) == 1 and rebinding(s[2][0]) and _empty(s[2][0][2])
+            else_default = len(s[3]) == 1 and rebinding(s[3][0]) and _empty(s[3][0][2])
+            if lits is not None and len(lits) == 1:
+                (l,) = lits
+                if then_default and not s[3] and estflow.is_none_test(l, ("ref", name)):
+                    continue
+                if else_default and not s[2] and not l[1] and estflow.is_none_test((l[0], True), ("ref", name)):
+                    continue
+        if rebinding(s) and _defaulted(s[2], name):
+            continue
+        out.append(s)
+
+    def scan(stmts):
+        for s in stmts:
+            if rebinding(s) or (s[0] in ("assign", "assign_tuple") and ("ref", name) in ([s[1]] + (s[1][2] if s[1][0] == "init" else []))):
+                ctx.oblige("ORDER", where, f"`{name}` rebound", False, file=file, func=func, construct=f"{name} rebound",
+                           msg=f"tick replaces its `{name}` argument by `{cppast.show(s[2])[:80]}` (other than reading an absent argument as empty): "
+                               f"the readings the caller gave are not the ones that are folded")
+            for sub in s:
+                if isinstance(sub, list) and sub and isinstance(sub[0], tuple) and sub[0] and isinstance(sub[0][0], str) \
+                        and sub[0][0] in ("if", "decl", "assign", "assign_tuple", "rangefor", "for_range", "expr", "return", "raise", "while", "static_assert"):
+                    scan(sub)
+    scan(out)
+    return out
+
+
 def check_tick(ctx, file, func, tag, events, problems, *, held_all, held_state, readings_param, output_param, control_param, lang):
     where = f"{file}:{func} [{tag}]"
     for p in problems:
@@ -48,7 +108,7 @@ def check_tick(ctx, file, func, tag, events, problems, *, held_all, held_state, 
     if loops:
         lp = loops[0]
         rng = lp.detail.get("range")
-        rng_ok = rng == ("ref", readings_param)
+        rng_ok = rng == ("ref", readings_param) or (lang == "py" and _defaulted(rng, readings_param))
         ctx.oblige("ORDER", where, f"loop iterates `{lp.detail.get('range_text')}`", rng_ok, file=file, func=func, construct="reading loop range",
                    msg=f"readings are iterated through `{lp.detail.get('range_text')}`, not the readings argument itself "
                        f"in the order given (sorting, reversing, filtering or slicing changes the fold)")
@@ -123,10 +183,20 @@ def check_tick(ctx, file, func, tag, events, problems, *, held_all, held_state, 
             ctx.oblige("CONTROL", where, f"STEP args {e.detail['args']}", okc, file=file, func=func, construct="control passthrough",
                        msg=f"a propagation is issued with {e.detail['args']}: the tick's control is not passed on")
     if lang == "py":
+        from .. import estflow
         first_step = next((i for i, e in enumerate(events) if e.kind == "STEP"), len(events))
-        raises = [e for e in events[:first_step] if e.kind == "RAISE" and any("control" in g and "None" in g and "control_size" in g for g in e.guard)]
+        is_size = lambda x: isinstance(x, tuple) and x and x[0] == "field" and x[2] == "control_size"
+        raises = []
+        for e in events[:first_step]:
+            if e.kind != "RAISE" or e.in_loop:
+                continue
+            lits = estflow.literals(e.guard_ir)
+            if lits is not None and len(lits) == 2 and any(estflow.is_none_test(l, ("ref", control_param)) for l in lits) \
+                    and any(estflow.is_positive_test(l, is_size) for l in lits):
+                raises.append(e)
         ctx.oblige("CONTROL", where, "control required guard precedes the first propagation", bool(raises), file=file, func=func,
-                   construct="control-required guard", msg="no `control is None and control_size > 0 -> raise` before the first propagation")
+                   construct="control-required guard", msg="no `control is None and control_size > 0 -> raise` before the first propagation "
+                   "(the guard must refuse exactly the ticks without control of a filter that has control inputs)")
     else:
         asserts = [e for e in events if e.kind == "ASSERT"]
         want = "!is_same_v" if control_param is not None else "is_same_v"
@@ -145,20 +215,20 @@ def run(ctx: core.Ctx) -> int:
     traces = {}
     # ---- Python
     rel, cls = rtmodel.py_runtime(ctx)
-    fn = core.need(core.find_func(cls, "tick"), "runtime.ManagedFilter.tick")
+    fn = rtmodel.py_runtime_func(ctx, cls, "tick")
     ctx.functions.append("runtime.ManagedFilter.tick")
     names = [a.arg for a in fn.args.args if a.arg != "self"] + [a.arg for a in fn.args.kwonlyargs]
     if "readings" not in names or "control" not in names or not names:
         raise core.AnalysisError(f"runtime.ManagedFilter.tick parameters {names} lack output time / control / readings")
     te = rtmodel.TickExec("py", "_process_model", ["current_time", "state", "covariance"])
     body = rtmodel.py_block(fn.body)
-    # `if readings is None: readings = []` is the default-argument idiom; it rebinds the parameter to the empty list
-    body = [s for s in body if not (s[0] == "if" and s[1] == ("bin", "is", ("ref", "readings"), ("num", "None"))
-                                    and s[2] == [("decl", "readings", ("init", "tuple", []), "")] and not s[3])]
+    # `if readings is None: readings = []` (and its equivalents) is the default-argument idiom; nothing else may rebind the parameter
+    body = strip_default_idiom(ctx, body, "readings", f"{rel}:ManagedFilter.tick [python]", rel, "ManagedFilter.tick")
     te.block(body)
     check_tick(ctx, rel, "ManagedFilter.tick", "python", te.events, te.problems, held_all=["current_time", "state", "covariance"],
                held_state=["state", "covariance"], readings_param="readings", output_param=names[0], control_param="control", lang="py")
     traces["python"] = canon(te.events)
+    flow_py(ctx, rel, cls, body, names)
     nt = cpp_part(ctx, traces)
     ctx.floor("TICKPLAN", nt + 1, 9, "tick bodies (1 Python + 2 per C++ valuation)")
     ref = traces.get("python")
@@ -166,6 +236,131 @@ def run(ctx: core.Ctx) -> int:
         ctx.oblige("SIBLINGS", f"{k}", f"trace {t}", t == ref, file=HDR if k != "python" else PYF, func="tick", construct=f"sibling trace {k.split()[0]}",
                    msg=f"the call skeleton of {k} is {t}, Python's is {ref}")
     return core.finish(ctx, explanation="E5: ordered event lists of every tick body vs the TickPlan; effect analysis of held fields", **META)
+
+
+def flow_py(ctx: core.Ctx, rel, cls, body, tick_params):
+    """FLOW / DATA: value flow of the estimate through the Python tick (fv.estflow): which value reaches which parameter and which held field"""
+    from .. import estflow
+    from . import c10 as _c10
+    ctx.rule("FLOW", "per reading the step result is held component by component (time, state, covariance), the update reads and refreshes the held "
+                     "state and covariance with the reading's own key and data; every call starts from the newest estimate")
+    ctx.rule("DATA", "a reading without data gets make_reading(its key, **its keywords) exactly when its data is absent, before the update")
+    func = "ManagedFilter.tick"
+    where = f"{rel}:{func} [python]"
+    sigs, recs = _c10.py_filter_sigs(ctx)
+    recs = dict(recs)
+    recs.update(estflow.namedtuples(ctx.parse(rel)))
+    held = {"@state": "state", "@covariance": "cov", "@current_time": "time"}
+    # shape of what the step function returns (C10 CHAIN decides that it is the newest estimate at the target time)
+    pfn = rtmodel.py_runtime_func(ctx, cls, "_process_model")
+    pparams = [a.arg for a in pfn.args.args if a.arg != "self"]
+    ppos, _, prec = sigs["process_model"]
+    f0 = estflow.Flow("py", held, recs, predict_roles=ppos, predict_ret=lambda o: _c10._fresh_record(prec, o),
+                      control_param="control" if "control" in pparams else None, time_params=[pparams[0]])
+    f0.block(rtmodel.py_block(pfn.body))
+    shapes = [v for _, v in f0.returns]
+    if len(shapes) != 1 or shapes[0] is None:
+        ctx.error(f"{where}: the step function's return value has no derivable shape ({shapes})")
+        return
+
+    def reshape(v, origin, tgt):
+        if isinstance(v, estflow.Est):
+            return estflow.Est(v.comp, True, origin)
+        if isinstance(v, estflow.TimeV):
+            return estflow.TimeV(tgt)
+        if isinstance(v, estflow.Sav):
+            return estflow.Sav({k: reshape(x, origin, tgt) for k, x in v.fields.items()})
+        if isinstance(v, estflow.Tup):
+            return estflow.Tup([reshape(x, origin, tgt) for x in v.items])
+        return v
+    spos, skwo, srec = sigs["sensor_model"]
+    snaps = []
+
+    class TickFlow(estflow.Flow):
+        def loop_end(self, st, n):
+            if st[0] == "rangefor":
+                snaps.append((st, n, dict(self.heldv)))
+    fl = TickFlow("py", held, recs, update_roles=spos + skwo, update_ret=lambda o: _c10._fresh_record(srec, o), step_name="_process_model",
+                  step_params=pparams, step_ret=lambda o, t: reshape(shapes[0], o, t), control_param="control" if "control" in tick_params else None,
+                  time_params=[tick_params[0]])
+    fl.block(body)
+    for p_ in fl.problems:
+        ctx.error(f"{where}: {p_}")
+    for v in fl.violations:
+        ctx.oblige("FLOW", where, v[:70], False, file=rel, func=func, construct="flow:" + v.split(":")[0] + ":" + v[-40:], msg=v)
+    loops = [st for st in body if st[0] == "rangefor"]
+    nsn = 0
+    for st, n, hv in snaps:
+        var = st[1][1] if isinstance(st[1], tuple) and st[1][0] == "ref" else "?"
+        al = _aliases(st[3], var)
+        nsn += 1
+        for h, comp in (("@state", "state"), ("@covariance", "cov")):
+            v = hv.get(h)
+            ok = isinstance(v, estflow.Est) and v.comp == comp and v.fresh
+            ctx.oblige("FLOW", where, f"after reading #{n}: held {h[1:]} = {v!r}", ok, file=rel, func=func, construct=f"held {h[1:]} after a reading",
+                       msg=f"after a reading has been folded the held {h[1:]} is {v!r}; required the newest {comp} (the result of that reading's update)")
+        v = hv.get("@current_time")
+        okt = isinstance(v, estflow.TimeV) and any(v.text == f"{a}.timestamp" for a in al)
+        ctx.oblige("FLOW", where, f"after reading #{n}: held time = {v!r}", okt, file=rel, func=func, construct="held time after a reading",
+                   msg=f"after a reading has been folded the held time is {v!r}; required that reading's own timestamp")
+    ups = [c for c in fl.calls if c["kind"] == "UPDATE"]
+    for st in loops:
+        var = st[1][1] if isinstance(st[1], tuple) and st[1][0] == "ref" else "?"
+        al = _aliases(st[3], var)
+        for c in ups:
+            ir = c["ir"]
+            for role, fld in (("sensor_key", "sensor_key"), ("sensor_reading", "_data")):
+                a = ir.get(role)
+                ok = a is not None and a[0] == "field" and a[2] == fld and a[1][0] == "ref" and a[1][1] in al
+                ctx.oblige("FLOW", where, f"update {role} = {cppast.show(a) if a else None}", ok, file=rel, func=func, construct=f"update {role}",
+                           msg=f"the sensor update is given `{cppast.show(a) if a else None}` as its {role}; required the folded reading's own {fld}")
+        # DATA
+        sites = []
+
+        def walk(stmts, guard):
+            for x in stmts:
+                if x[0] == "assign" and x[1][0] == "field" and x[1][2] == "_data" and x[1][1][0] == "ref" and x[1][1][1] in al:
+                    sites.append((x, list(guard)))
+                if x[0] == "if" and x[4] is None:
+                    walk(x[2], guard + [(x[1], True)])
+                    walk(x[3], guard + [(x[1], False)])
+        walk(st[3], [])
+        okd, why = True, ""
+        if len(sites) != 1:
+            okd, why = False, f"{len(sites)} assignments of the reading's data in the reading loop (required exactly one, from make_reading)"
+        else:
+            x, guard = sites[0]
+            lits = estflow.literals(guard)
+            v = x[2]
+            dref = x[1]
+            if lits is None or len(lits) != 1 or not estflow.is_none_test(next(iter(lits)), dref):
+                okd, why = False, "the reading's data is built under `" + " and ".join(("" if pol else "not ") + cppast.show(c) for c, pol in guard) + \
+                    "`; required exactly when the reading has no data yet (`._data is None`)"
+            elif not (v[0] == "mcall" and v[2] == "make_reading" and rtmodel.show2(v[1]) == "@_impl"):
+                okd, why = False, f"the reading's data is built by `{cppast.show(v)[:80]}`, not by the filter's make_reading"
+            else:
+                args = v[3]
+                pos = [a for a in args if a[0] != "kw"]
+                kws = [a for a in args if a[0] == "kw"]
+                okk = len(pos) == 1 and pos[0][0] == "field" and pos[0][2] == "sensor_key" and pos[0][1] == dref[1] \
+                    and len(kws) == 1 and kws[0][1] is None and kws[0][2] == ("field", dref[1], "kwargs")
+                if not okk:
+                    okd, why = False, f"make_reading is called with `{', '.join(cppast.show(a) for a in args)[:100]}`; required (the reading's sensor_key, **the reading's keywords)"
+        ctx.oblige("DATA", where, "data built from (sensor_key, **kwargs) exactly when absent", okd, file=rel, func=func, construct="reading data", msg=why)
+    ctx.floor("FLOW", nsn, 2, "end-of-iteration states of the reading loop (two abstract iterations)")
+
+
+def _aliases(stmts, var):
+    """names that are plain copies of the loop variable inside the loop body"""
+    al = {var}
+    changed = True
+    while changed:
+        changed = False
+        for x in stmts:
+            if x[0] == "decl" and x[2] is not None and x[2][0] == "ref" and x[2][1] in al and x[1] not in al:
+                al.add(x[1])
+                changed = True
+    return al
 
 
 def cpp_part(ctx: core.Ctx, traces) -> int:
@@ -179,6 +374,13 @@ def cpp_part(ctx: core.Ctx, traces) -> int:
             ctx.error(f"{HDR}: no instantiation found for valuation {val}")
             continue
         ticks = ent["tick"]
+
+        def resolve(n, ticks=ticks):
+            for params, body, line in ticks:
+                if len(params) == n:
+                    return params, body
+            return None
+        ticks = [(pr, rtmodel.inline_ir(bd, ent.get("helpers", {})), ln) for pr, bd, ln in ticks]
 
         def resolve(n, ticks=ticks):
             for params, body, line in ticks:
